@@ -1,6 +1,7 @@
 package main
 
 import (
+	"bytes"
 	"fmt"
 	"os"
 	"strings"
@@ -434,9 +435,11 @@ func (p c05) runReaders(sc *Scenario, concurrent bool, res *Result) ([]*c05task,
 					}
 				}
 				tk.panic = safeRun(func() {
+					goAPIReads(c, g, i)
 					var rg starlark.StringDict
 					rg, tk.err = progs[i].Init(c.Th, pres[i])
 					rg.Freeze() // module end: re-freezes whatever it stored
+					goAPIReads(c, g, i+1)
 				})
 				tk.steps = c.Th.ExecutionSteps()
 				if len(nodes) > 0 {
@@ -454,6 +457,62 @@ func (p c05) runReaders(sc *Scenario, concurrent bool, res *Result) ([]*c05task,
 		res.Count("modules_failing_by_themselves", 1)
 	}
 	return tasks, s, snapViol
+}
+
+// goAPIReads uses the read-only Go API of every function and collection
+// reachable from g (what an embedder does with a shared module: metadata of
+// functions, Keys/Items/Len/Index/Has of collections) and records the results in
+// the task's transcript.
+func goAPIReads(c *TaskCtx, g starlark.StringDict, salt int) {
+	for k, n := range Walk(g) {
+		if (k+salt)%2 == 1 {
+			continue // different tasks touch different (overlapping) subsets
+		}
+		switch v := n.V.(type) {
+		case *starlark.Function:
+			d := fmt.Sprintf("fn %s@%s doc=%q np=%d kw=%d va=%v kwa=%v", v.Name(), v.Position(), v.Doc(), v.NumParams(), v.NumKwonlyParams(), v.HasVarargs(), v.HasKwargs())
+			for i := 0; i < v.NumParams(); i++ {
+				pn, pp := v.Param(i)
+				d += fmt.Sprintf(" %s@%s", pn, pp)
+				if dv := v.ParamDefault(i); dv != nil {
+					d += "=" + dv.Type()
+				}
+			}
+			for i := 0; i < v.NumFreeVars(); i++ {
+				b, fv := v.FreeVar(i)
+				d += fmt.Sprintf(" free:%s:%s", b.Name, fv.Type())
+			}
+			c.record("goapi:" + d)
+		case *starlark.List:
+			d := fmt.Sprintf("list len=%d", v.Len())
+			if v.Len() > 0 {
+				d += " first=" + v.Index(0).Type() + " slice=" + fmt.Sprint(v.Slice(0, v.Len(), 2).(*starlark.List).Len())
+			}
+			c.record("goapi:" + d)
+		case *starlark.Dict:
+			d := fmt.Sprintf("dict len=%d keys=%d items=%d", v.Len(), len(v.Keys()), len(v.Items()))
+			for _, k := range v.Keys() {
+				if _, found, err := v.Get(k); err != nil || !found {
+					d += " LOST-KEY"
+				}
+			}
+			c.record("goapi:" + d)
+		case *starlark.Set:
+			d := fmt.Sprintf("set len=%d", v.Len())
+			it := v.Iterate()
+			var e starlark.Value
+			for it.Next(&e) {
+				if ok, err := v.Has(e); err != nil || !ok {
+					d += " LOST-ELEM"
+				}
+			}
+			it.Done()
+			if u, err := v.Union(v.Iterate()); err == nil {
+				d += fmt.Sprintf(" union=%d", u.(*starlark.Set).Len())
+			}
+			c.record("goapi:" + d)
+		}
+	}
 }
 
 // runProgram executes family "program": K Inits of one compiled program.
@@ -492,9 +551,16 @@ func (p c05) runProgram(sc *Scenario, concurrent bool, res *Result) ([]*c05task,
 				c := tk.ctx
 				c.T = t
 				tk.panic = safeRun(func() {
+					if i%2 == 0 {
+						// serialise the shared program while others run it
+						var buf bytes.Buffer
+						werr := prog.Write(&buf)
+						c.record(fmt.Sprintf("goapi:write %d bytes %016x err=%v file=%s loads=%d", buf.Len(), hashStr(buf.String()), werr, prog.Filename(), prog.NumLoads()))
+					}
 					var g starlark.StringDict
 					g, tk.err = prog.Init(c.Th, pres[i])
 					g.Freeze()
+					goAPIReads(c, g, i)
 				})
 				tk.steps = c.Th.ExecutionSteps()
 			})
